@@ -1958,9 +1958,13 @@ func (p *PubSub) PublishBatch(batch *MessageBatch, opts ...BatchPubOpt) error {
 	}
 	setDefaultBatchPublishOptions(publishOptions)
 
-	p.sendMessageBatch <- messageBatchAndPublishOptions{
+	select {
+	case p.sendMessageBatch <- messageBatchAndPublishOptions{
 		messages: batch.take(),
 		opts:     publishOptions,
+	}:
+	case <-p.ctx.Done():
+		return p.ctx.Err()
 	}
 
 	return nil
